@@ -553,6 +553,39 @@ impl Check for C19 {
             batch.push(Case::new(format!("{}print(print(v))\n", a), 20, format!("shared children\u{1}{}", exp)));
             batch.push(Case::new(exp_prog, 20, format!("separate children\u{1}{}", exp)));
         }
+        // values nested far deeper than the skeletons, and values that cannot be rendered: a print is
+        // one whole rendering or nothing
+        for p in super::evalorder::deep_print_programs() {
+            batch.push(Case::new(p, 21, "deeply nested value".to_string()));
+            n_values += 1;
+        }
+        for p in [
+            "xs := [1, [2]]\nxs[1][0] = xs\nprint(\"pre\")\nprint(xs)\nprint(\"post\")\n",
+            "xs := [1, 2, 3]\nxs[2] = xs\nprint(\"pre\")\nprint(xs)\n",
+            "o := {\"a\": 1, \"b\": {}}\no.b.c = o\nprint(\"pre\")\nprint(o)\n",
+            "o := {\"a\": [1, 2], \"z\": null}\no.z = [o.a, {\"back\": o}]\nprint(\"pre\")\nprint(o.a)\nprint(o)\n",
+            "xs := [\"a\\nb\", {\"k\": []}]\nxs[1].k += [xs]\nprint(\"pre\")\nprint([0, xs])\n",
+            "s := \"né\"\nprint(\"pre\")\nprint([1, \"a\", s[1]])\nprint(\"post\")\n",
+            "s := \"né\"\nprint(\"pre\")\nprint({\"a\": 1, \"b\": [s[2]]})\n",
+            "s := \"€\"\nprint(\"pre\")\nprint([[s[0:1]], 2])\n",
+            "xs := [1]\nys := [xs, xs]\nprint(ys)\nxs[0] = ys\nprint(\"pre\")\nprint(ys)\n",
+        ] {
+            batch.push(Case::new(p.to_string(), 21, "a value that cannot be rendered".to_string()));
+            n_values += 1;
+        }
+        // values that are equal print identically; values that print differently are not equal
+        {
+            let vals = [
+                "{\"id\": 1, \"tags\": 2}", "{\"id\": 1, \"labels\": 2}", "{\"tags\": 2, \"id\": 1}", "{\"a\": 1, \"b\": 2}", "{\"b\": 1, \"c\": 2}", "{\"a\": 1}", "{\"b\": 1}",
+                "{\"a\": {\"x\": 1}}", "{\"a\": {\"y\": 1}}", "[{\"p\": 0}]", "[{\"q\": 0}]", "{\"a\": 1, \"b\": 2, \"c\": 3}", "{\"a\": 1, \"b\": 2, \"d\": 3}", "{\"a\": 1, \"c\": 2, \"d\": 3}", "{}", "[]", "[1, 2]", "{\"0\": 1, \"1\": 2}",
+            ];
+            for a in vals {
+                for b in vals {
+                    batch.push(Case::new(format!("a := {}\nb := {}\nprint(a == b)\nprint(a)\nprint(\"--\")\nprint(b)\n", a, b), 22, format!("{} == {}", a, b)));
+                    n_values += 1;
+                }
+            }
+        }
         ctx.judge(std::mem::take(&mut batch), |c, r, o| self.oracle(c, r, o))?;
         ctx.extra.insert(
             "bounds".into(),
@@ -571,6 +604,21 @@ impl Check for C19 {
             }
             if r.stdout != o.stdout {
                 return viol("rendering", format!("{}: printed {:?}, reference renderer {:?}", what, o.out_str(), String::from_utf8_lossy(&r.stdout)));
+            }
+        }
+        if c.tag == 21 || c.tag == 22 {
+            if r.stdout != o.stdout || r.is_ok() != (o.class == Class::Ok) {
+                return viol("rendering", format!("{}: {:?} printed {:?} and ended {:?} {}; the reference prints {:?} and {}", c.meta, c.src, o.out_str(), o.class, o.msg, String::from_utf8_lossy(&r.stdout), if r.is_ok() { "completes" } else { "reports an error" }));
+            }
+        }
+        if c.tag == 22 {
+            let out = o.out_str();
+            if let Some((first, rest)) = out.split_once('\n') {
+                if let Some((pa, pb)) = rest.split_once("--\n") {
+                    if (first == "true") != (pa == pb) {
+                        return viol("equal-values-print-identically", format!("{}: `==` answers {} but the two values print {:?} and {:?}", c.meta, first, pa, pb));
+                    }
+                }
             }
         }
         Verdict::Pass
